@@ -6,6 +6,9 @@
 (*           kind "wls"   computechi2(b, sqivar, A): integer system, every attribute          *)
 (*                        abstracted to the nearby small rational; ok iff all attributes are  *)
 (*                        the exact weighted least-squares record;                            *)
+(*           kind "wlsf"  computechi2 on a float system (high signal-to-noise, noise-free):   *)
+(*                        chi2 >= 0 and equal to the weighted residual of the RETURNED yfit,   *)
+(*                        gradient, covar inverse, dof - harness-measured, scaled integers;   *)
 (*           kind "pcomp" pcomp(x, standardize, covariance) on an integer matrix, attributes  *)
 (*                        as scaled integers; the four laws of the statement;                 *)
 (*           kind "pca"   pca_solve: the three laws of the statement on logged measurements.  *)
@@ -34,6 +37,7 @@ WlsWhy(r) ==
        ELSE ""
 PcWhy(r) == IF r.err THEN "exception" ELSE PcompVerdict(r)
 Why(r) == CASE r.kind = "wls" -> WlsWhy(r)
+            [] r.kind = "wlsf" -> WlsFloatVerdict(r)
             [] r.kind = "pcomp" -> PcWhy(r)
             [] r.kind = "pca" -> PcaVerdict(r)
 (* which named deviation explains a rejected record exactly ("" if none) *)
